@@ -530,8 +530,6 @@ def c12_8(ctx: Ctx):
                 rest = rest.replace(a, "", 1)
         if kind == "GOTPCREL":
             parts = {"GOT", "PCREL"}
-        if kind == "GOTOFF":
-            parts = {"GOT"}
         ctx.check(attrs == parts, repo.mod("gtirb_protobuf_compat.proto_4"), v, f"@{kind} -> {sorted(parts)}",
                   f"@{kind} maps to {sorted(attrs)}; its name (and the x86-64 TLS/PIC ABI) says {sorted(parts)}", key=f"C12.8::variant::{kind}")
 
